@@ -18,7 +18,7 @@ ENTITY_LOOKALIKES = ["&amp;", "&#38;", "&lt;b&gt;", "&nbsp;", "a&b;", "&&", "<!-
                      # double-escaped: the STORED value then literally contains an entity sequence
                      "&amp;amp;", "&amp;lt;b&amp;gt;", "x&amp;nbsp;y", "&amp;amp;amp;", "R&amp;amp;D <lab> & co", "&amp;gt;&gt;>", "&amp;apos;'", "&amp;quot;\""]
 
-TZNAMES = ["EST", "UTC", "GMT", "PST", "X", "-03", "+0530", "A B", "Zoné", "30", "EST5EDT", "a.b", ""]
+TZNAMES = ["EST", "UTC", "GMT", "PST", "X", "-03", "+0530", "A B", "Zoné", "30", "EST5EDT", "a.b", "", "%H%M", "100%", "%%", "GMT%z", "UTC-05:00"]
 
 
 def gen_str(rng, maxlen, stratum="mixed"):
